@@ -46,6 +46,9 @@ func New(dbPath string) (*Manager, error) {
 
 func (m *Manager) Set(key []byte, val []byte) error {
 	verifhook.Mut("bset", string(key), len(val))
+	if err := verifhook.FaultMeta("bset", string(key)); err != nil {
+		return err
+	}
 	return m.db.Update(func(txn *badger.Txn) error {
 		return txn.Set(key, val)
 	})
@@ -75,6 +78,9 @@ func (m *Manager) Get(key []byte) (data []byte, err error) {
 
 func (m *Manager) Delete(key []byte) error {
 	verifhook.Mut("bdel", string(key), 0)
+	if err := verifhook.FaultMeta("bdel", string(key)); err != nil {
+		return err
+	}
 	return m.db.Update(func(txn *badger.Txn) error {
 		return txn.Delete(key)
 	})
@@ -100,6 +106,9 @@ func (m *Manager) RunTransaction(ctx context.Context, fn transactor.TransactionF
 	}
 
 	verifhook.Mut("bbatch", "", 0)
+	if err := verifhook.FaultMeta("bbatch", ""); err != nil {
+		return err
+	}
 	return m.db.Update(func(txn *badger.Txn) error {
 		return fn(context.WithValue(ctx, ctxTxn{}, txn))
 	})
